@@ -84,6 +84,7 @@ func init() {
 	Properties["C06"] = PropSpec{
 		Rules: []Rule{
 			FieldFed,
+			ExpandRoot, CtorRecursion,
 			PanicInventory(c06Entries, []DynEntry{{Func: "(*SchemaValidator).Validate", DataArg: 1}}, jsonDomain, "JSON value domain: nil, bool, float64, string, json.Number, []interface{}, map[string]interface{}, int64"),
 			NilRule(func(p *core.Prog) []*ssa.Parameter {
 				// caller-supplied values that may be nil: the instance, and the format registry (the code
@@ -138,7 +139,12 @@ func init() {
 
 func init() {
 	Properties["C02"] = PropSpec{
-		Rules:       []Rule{MustPass, RuleSeq, ResultAlgebra, Keywords("SchemaValidator", schemaKeywords, "schema_ctor_calls"), Counting, Orderings, Pure, ArgRole, TypeTable, ObjectRouting, SliceRouting, KeywordRouting, KeywordPred, KeywordGuard, EnumConvert, KConsistent, GuardScope},
+		OutOfDomain: map[string]string{
+			"ENUM-CONVERT:basicCommonValidator:lossy-conversion": "documents are decoded JSON/YAML: instance and enum members are float64/string/bool, between which no value-changing conversion exists",
+			"PURE:EnumCase:lossy-conversion":                     "same: decoded JSON values only",
+			"PURE:UniqueItems:numeric-equality":                  "same: every number of a decoded document is a float64",
+		},
+		Rules:       []Rule{KeyExemption, NilPath, MustPass, RuleSeq, ResultAlgebra, Keywords("SchemaValidator", schemaKeywords, "schema_ctor_calls"), Counting, Orderings, Pure, ArgRole, TypeTable, ObjectRouting, SliceRouting, KeywordRouting, KeywordPred, KeywordGuard, EnumConvert, KConsistent, GuardScope},
 		Explanation: "SCHEMA-PASS clauses shared with C01, because the first pass is the schema validator run on the Swagger schema (anchors object_validator.go, schema_props.go): KEYWORDS — every keyword the Swagger schema uses (type, enum, pattern, min/max*, required, properties, patternProperties for x- extensions, additionalProperties:false, allOf/anyOf/oneOf/not, items, uniqueItems, format) reaches a sub-validator field that is read while validating; MEMBER-GUARD / K-CONSISTENT — every member of every object and array of the document is validated against its schema whatever its name or value (an exemption for a name such as 'id' silently accepts an invalid entry of definitions/properties/headers); KEYWORD-GUARD — no constraint helper is conditioned on the instance; COUNTING — oneOf over the parameter kinds is decided exactly (none / exactly one / several valid); ROUTING — in every configuration of properties / patternProperties / additionalProperties a member is handed to the pattern matcher and, when undeclared and unmatched, to the additionalProperties schema; ENUM-CONVERT. MUST-PASS: in (*SpecValidator).Validate the validation of json.Unmarshal(doc.Raw()) against the validator's Swagger schema, built with the validator's schemaOptions, dominates every other rule and every verdict-returning exit; NewSpecValidator applies SwaggerSchema(true) (both strictness flags) to those options; the result is merged with Merge into the error accumulator (RULE-SEQ) whose errors only grow (RESULT-ALGEBRA / RES-ALIAS: append-only writes); Spec() returns nil exactly on !errs.HasErrors(); each expanded parameter is re-validated against #/definitions/parameter and merged.",
 		NotDecided:  "That the schema pass itself is right for the 1600-line Swagger schema: that is C01 (draft-4 agreement), which is value-level.",
 		Assumptions: []string{trustDeps},
@@ -196,7 +202,7 @@ func init() {
 
 func init() {
 	Properties["C17"] = PropSpec{
-		Rules:       []Rule{KConsistent, OneShot, ResultAlgebra, ResLinear, ArgRole},
+		Rules:       []Rule{KConsistent, SameDatumPath, OneShot, ResultAlgebra, ResLinear, ArgRole},
 		Explanation: "K-CONSISTENT — at each of the 7 member-validation sites of the object and slice validators the value that extends the parent's path, the value that selects the member's data and the key under which the child's result is merged are the same SSA value, the parent path is the receiver's Path, and the child validator is constructed with that path (SetPath after construction only re-paths the outer validator; the single-schema `items` site, whose location accuracy C17 does not claim, is the one reviewed exception); the error for a missing required member is named <path>.<k> for the k that was not found; MEMBER-GUARD; ONESHOT-EQ — AgainstSchema returns nil exactly on !res.HasErrors() and otherwise CompositeValidationError(res.Errors...) of the same result; RESULT-ALGEBRA — validity is len(Errors)==0 (an invalid verdict carries at least one error), messages are de-duplicated by text, append-only; RES-ALIAS — the composite copies the errors. RES-LINEAR: the result that will be reported is not released; the superseded one is.",
 		NotDecided:  "Best-branch selection text for anyOf/oneOf; that every sub-validator uses its own Path in every message; message wording.",
 		Assumptions: []string{trustDeps},
@@ -215,7 +221,7 @@ func init() {
 		Assumptions: []string{trustDeps},
 	}
 	Properties["C01"] = PropSpec{
-		Rules:       []Rule{PoolAPI, ExactArith, Keywords("SchemaValidator", schemaKeywords, "schema_ctor_calls"), NilPath, Counting, Orderings, OrderingsTyped, Pure, ArgRole, TypeTable, AppliesTable, KeywordPosition, HelperField, ObjectRouting, SliceRouting, KeywordRouting, KeywordPred, KeywordGuard, EnumConvert, KConsistent, OneShot, PoolCtor, ResLinear, ResultAlgebra, MapOrder("(*SchemaValidator).Validate", "AgainstSchema")},
+		Rules:       []Rule{PoolAPI, ExactArith, KeyExemption, Keywords("SchemaValidator", schemaKeywords, "schema_ctor_calls"), NilPath, Counting, Orderings, OrderingsTyped, Pure, ArgRole, TypeTable, AppliesTable, KeywordPosition, HelperField, ObjectRouting, SliceRouting, KeywordRouting, KeywordPred, KeywordGuard, EnumConvert, KConsistent, OneShot, PoolCtor, ResLinear, ResultAlgebra, MapOrder("(*SchemaValidator).Validate", "AgainstSchema")},
 		Explanation: "Structural necessary conditions of draft-4 agreement, decided on every path: KEYWORDS — each of the 27 supported keywords of the schema is handed by newSchemaValidator to a sub-validator constructor, kept (itself or something built from it) in a field, and that field is read by the sub-validator's Validate/Applies (a keyword that is dropped or stored-but-never-read is a skipped constraint); COUNTING — oneOf/allOf are decided exactly by constant-propagating the post-loop region for every value of the counter of valid alternatives (0..3) and number of members, anyOf returns on the first valid alternative and errs after the loop otherwise, not errs exactly on the IsValid() edge of the sub-result, the counter is incremented once per valid alternative; TYPE-TABLE — the `type` keyword is decided exactly on a table of 246 cases (12 data incl. typed Go numbers × 9 type lists × nullable × format): the type validator, evaluated by constant propagation with its own fields bound to constants, returns an error exactly when draft 4 says the type does not match (integral numbers are integers, Go integers are numbers, nullable admits null, a format does not change the verdict of `type` for non-numeric data); APPLIES-TABLE — each group holding kind-specific keywords (string, number, object, array; identified by the schema keyword its constructor receives) admits exactly the reflect kinds those keywords govern (Applies evaluated for every kind by constant propagation); ROUTING — the object validator is executed on its control flow only, forking on structural atoms (recv.AdditionalProperties==nil, .Allows, .Schema==nil, has(recv.Properties,K), the results of the pattern matcher), methods of the receiver inlined: in every one of the ≈240 consistent configurations that reach the normal return, the generic member (K,V) of the instance is handed to the pattern matcher (which validates it against every matching pattern schema), and a member that is neither declared nor matched is validated against additionalProperties when that is a schema (exact over configurations: two edits that are each behaviour-preserving but together leave a configuration uncovered are reported, each one alone is not), additionalProperties:false raises 'not allowed' exactly for undeclared, unmatched, non-special names; the same enumeration for the array validator: items-as-schema validates every element, items-as-tuple validates position i against schema i, additionalItems (schema / false) applies exactly to the elements following a tuple and never without one; and for `required` (an error exactly for a name that is neither a member nor created from a default, the list being examined whenever it is not empty) and `dependencies` (schema dependency ⇒ the instance is validated against it, property dependency ⇒ an error exactly for each absent dependency, nothing for members that are absent or declare none); NILPATH — keyword groups whose Applies does not depend on the kind must also run for a nil instance (one genuine violation is a known finding); KEYWORD-GUARD — a constraint helper called from a Validate method is guarded only by the presence of its keyword, the type assertion and earlier outcomes, never by the instance value; ENUM-CONVERT — enum membership compares the instance converted to the member's type with that member; K-CONSISTENT/MEMBER-GUARD — every member (property, pattern/additional property, list/tuple/additional item) is validated against its schema under its own key and not filtered by its value or name; MAP-ORDER — no order-dependent early exit from map ranges in the schema validators; D-BOUND on the element loops (via C06); ONESHOT-EQ — AgainstSchema is NewSchemaValidator(...).Validate plus HasErrors; POOL-CTOR — no constraint field of a recycled validator is left from a previous schema; RES-LINEAR — no verdict is read from, merged from or released twice through a result that already went back to the pool (directly or through a variable that aliases it, e.g. the best-failure of anyOf/oneOf), which is what turns a later, unrelated validation into a wrong verdict; RESULT-ALGEBRA — every merge helper (Merge, mergeForField, mergeForSlice, MergeAsErrors…) applies the documented effects for every non-nil operand on every path, so the errors of a member or item can never be lost on the way to the verdict (for instance when schemata recording is switched off). POOL-API: the shared empty result is refused by the result redeemer.",
 		NotDecided:  "Whether each keyword's predicate agrees with draft 4 (oneOf counting, integer-vs-number, enum equality across numeric types, regexp search semantics, format registries…): value-level, out of reach of static analysis; the checks decide that no keyword group is skipped, mis-keyed or conditioned on the wrong thing.",
 		Assumptions: []string{trustDeps},
